@@ -25,6 +25,21 @@ func zzC04Ports(k int) []netv1.NetworkPolicyPort {
 // one side: workloads a, b (and c if withC; b absent if noB); a policy on a with egress to an ipBlock with
 // symbolic network bits (optionally an except) and to app=b, with port shapes chosen per rule
 func zzC04Side(side string, book *zzCidrBook, withC, noB bool) []parser.K8sObject {
+	nIP, nPod, allowEx := 3, 3, true
+	if vf_Tier() == 0 { // quick: prefix lengths {0,24}; fewer port shapes; an except on side 1 only
+		book.menu = []int{0, 24}
+		nIP = 1
+		nPod = 1
+		if side == "s2" {
+			nIP = 2
+			nPod = 2
+			allowEx = false
+		}
+	}
+	return zzC04SideX(side, book, withC, noB, nIP, nPod, allowEx)
+}
+
+func zzC04SideX(side string, book *zzCidrBook, withC, noB bool, nIP, nPod int, allowEx bool) []parser.K8sObject {
 	objs := []parser.K8sObject{zzDeployObj("ns1", "a", map[string]string{"app": "a"}, nil)}
 	if !noB {
 		objs = append(objs, zzDeployObj("ns1", "b", map[string]string{"app": "b"}, nil))
@@ -37,7 +52,7 @@ func zzC04Side(side string, book *zzCidrBook, withC, noB bool) []parser.K8sObjec
 	}
 	blk := &netv1.IPBlock{CIDR: book.New(side + ".cidr")}
 	c := book.last()
-	if vf_Choose(side+".nex", 2) == 1 {
+	if allowEx && vf_Choose(side+".nex", 2) == 1 {
 		ex := book.New(side + ".ex")
 		vf_Assume(zzCidrInside(book.last(), c))
 		blk.Except = []string{ex}
@@ -46,8 +61,8 @@ func zzC04Side(side string, book *zzCidrBook, withC, noB bool) []parser.K8sObjec
 		PodSelector: metav1.LabelSelector{MatchLabels: map[string]string{"app": "a"}},
 		PolicyTypes: []netv1.PolicyType{netv1.PolicyTypeEgress},
 		Egress: []netv1.NetworkPolicyEgressRule{
-			{To: []netv1.NetworkPolicyPeer{{IPBlock: blk}}, Ports: zzC04Ports(vf_Choose(side+".ipports", 3))},
-			{To: []netv1.NetworkPolicyPeer{{PodSelector: zzSel("app", "b")}}, Ports: zzC04Ports(vf_Choose(side+".podports", 3))},
+			{To: []netv1.NetworkPolicyPeer{{IPBlock: blk}}, Ports: zzC04Ports(vf_Choose(side+".ipports", nIP))},
+			{To: []netv1.NetworkPolicyPeer{{PodSelector: zzSel("app", "b")}}, Ports: zzC04Ports(vf_Choose(side+".podports", nPod))},
 		},
 	})
 	return append(objs, np)
